@@ -19,7 +19,7 @@ from .rules.wiring import rule_passthrough_sort, rule_passthrough_engine, rule_c
 
 PROPERTIES = {
     "C01": {
-        "rules": [rule_dispatch, rule_stable, rule_passthrough_engine, M.rule_varshift, PR.rule_pairs_perm, PR.rule_layout, CD.rule_missingcode, PR.rule_unpermute, CD.rule_countwidth, PR.rule_forder, M.rule_varwidth, M.rule_accforward],
+        "rules": [rule_dispatch, rule_stable, rule_passthrough_engine, M.rule_varshift, PR.rule_pairs_perm, PR.rule_layout, CD.rule_missingcode, PR.rule_unpermute, CD.rule_countwidth, PR.rule_forder, M.rule_varwidth, M.rule_accforward, M.rule_novalid],
         "thorough": [selftest, seeded_regression],
         "technique": "engine-dispatch model + sibling cross-check of kernel signatures (custom AST checker)",
         "level_text": "Static, all-paths: for every kernel name a blueprint can ask for and every engine, the implementation the dispatch "
@@ -143,7 +143,7 @@ PROPERTIES = {
         "explanation": "R-COINDEX, R-PASSTHROUGH[sort], R-SORTED, R-TOKEN (sort is part of the layer names: sorted and unsorted results computed together are not mixed), R-BLOCKLABELS (per-block label lists follow the sort flag)",
     },
     "C18": {
-        "rules": [M.rule_blockonly, PR.rule_unpermute, rule_token, rule_dispatch, rule_qrange, MB.rule_outalias],
+        "rules": [M.rule_blockonly, PR.rule_unpermute, rule_token, rule_dispatch, rule_qrange, MB.rule_outalias, rule_arity, M.rule_novalid],
         "thorough": [selftest, seeded_regression],
         "technique": "registry check; CFG dominance of a refusal over graph construction; three-site agreement",
         "level_text": "Static, all-paths: order statistics declare no block/combine decomposition, a refusal dominates graph construction "
